@@ -495,6 +495,42 @@ impl<T> Tx<T> {
     }
 }
 
+impl<T> Tx<T> {
+    pub fn downgrade(&self) -> WeakTx<T> {
+        WeakTx {
+            inner: self.inner.downgrade(),
+            ctx: self.ctx.clone(),
+            who: self.who,
+            op: self.op,
+        }
+    }
+}
+
+/// `mpsc::WeakSender` look-alike.
+pub struct WeakTx<T> {
+    inner: mpsc::WeakSender<T>,
+    ctx: ReadCtx,
+    who: Option<Who>,
+    op: &'static str,
+}
+
+impl<T> WeakTx<T> {
+    pub fn role(mut self, who: Who, op: &'static str) -> Self {
+        self.who = Some(who);
+        self.op = op;
+        self
+    }
+
+    pub fn upgrade(&self) -> Option<Tx<T>> {
+        self.inner.upgrade().map(|inner| Tx {
+            inner,
+            ctx: self.ctx.clone(),
+            who: self.who,
+            op: self.op,
+        })
+    }
+}
+
 /// `broadcast::Receiver` look-alike used by the live task of `Store::read`.
 pub struct BRx<T> {
     inner: broadcast::Receiver<T>,
